@@ -18,9 +18,9 @@ import traceback
 import numpy as np
 
 PROP = 'C07'
-TARGETS = ['T12', 'T13a', 'T13c', 'T13n', 'T13d']
+TARGETS = ['T12', 'T13a', 'T13c', 'T13n', 'T13d', 'T13g']
 LEAN_MODULES = ['HdVerif.Props.C07']
-MODEL_MODULES = ['HdVerif.Model.Codec']
+MODEL_MODULES = ['HdVerif.Model.Codec', 'HdVerif.Model.CodecGlue']
 NAMESPACE = 'HdVerif.C07'
 DRIVER = 'Drivers/C07.lean'
 RULE = ('cells = every combination of (transfer syntax, dtype, bits allocated, samples, photometric interpretation, '
@@ -37,6 +37,10 @@ ASSUMPTIONS = [
     'RLE Lossless with bits_stored > bits_allocated - 8); RLE outside it is the open finding C07-rle-narrow-stored',
     'JPEG 2000 lossless: no encoder is installed in this environment; cells are observed as codec refusals (not in the region)',
     'cells of 8, 16, 32 bits: 64-bit integer arrays are outside the model (DType has no 64-bit member) and are not drawn',
+    'glue stream: images without the (type 1) Bits Stored attribute are read through get_stored_frame / get_stored_frames only '
+    '(in memory and lazily) -- the readers with the Bits Allocated fall-back; the pixel transform (get_frame, get_frames), the '
+    'cached pixel_array and ImageFileReader need the attribute (C06 / pydicom) and are exercised with it present; YBR_FULL '
+    'frames (open finding) and the segmentation writer (keyword dictionary, C01-C04) are not drawn',
 ]
 MODELLED_NOT_VERIFIED = ['pydicom RLE encoder/decoder', 'pyjpegls (JPEG-LS) codec', 'pydicom pack_bits / unpack_bits',
                          'pydicom native pixel data decoder (length check, unused-bit correction, YBR->RGB)',
@@ -635,6 +639,222 @@ def _frames(ctx, reqs, pending):
         _check(ctx, kind, ts, dt, ba, bs, s, pi, pr, pc, a, reqs, pending, layout=layout)
 
 
+# ------------------------------------------------------------------ the glue: frames read back through the image classes
+_NO_TRANSFORMS = dict(apply_real_world_transform=False, apply_modality_transform=False, apply_voi_transform=False,
+                      apply_presentation_lut=False, apply_palette_color_lut=False, apply_icc_profile=False)
+
+
+def _glue_dataset(frames, ts, ba, bs, pi, pr, pc, drop_stored):
+    """a multi-frame image (plain pydicom data set) whose frames are `encode_frame`'s bytes (native 1 bit: the frames packed
+    as ONE bit stream, the way a multi-frame element holds them) and whose attributes are the parameters of that call"""
+    from gen.images import MF_SC_BIT, MF_SC_BYTE, MF_SC_COLOR, MF_SC_WORD, base_dataset
+    from highdicom.frame import encode_frame
+    from pydicom.encaps import encapsulate
+    from pydicom.pixels.utils import pack_bits
+    from pydicom.uid import UID
+    a0 = frames[0]
+    spp = a0.shape[2] if a0.ndim == 3 else 1
+    sop = MF_SC_COLOR if spp == 3 else {1: MF_SC_BIT, 8: MF_SC_BYTE}.get(ba, MF_SC_WORD)
+    ds = base_dataset(sop, UID(ts))
+    ds.NumberOfFrames = len(frames)
+    ds.Rows, ds.Columns = int(a0.shape[0]), int(a0.shape[1])
+    ds.SamplesPerPixel = spp
+    ds.PhotometricInterpretation = pi
+    if pc is not None:
+        ds.PlanarConfiguration = pc
+    ds.BitsAllocated, ds.BitsStored, ds.HighBit = ba, bs, bs - 1
+    ds.PixelRepresentation = pr
+    enc = UID(ts).is_encapsulated
+    if ba == 1 and not enc:
+        data = pack_bits(np.concatenate([np.asarray(f).reshape(-1) for f in frames]).astype(np.uint8), pad=True)
+    else:
+        parts = [encode_frame(f, ts, ba, bs, pi, pr, pc) for f in frames]
+        data = encapsulate(parts) if enc else b''.join(parts)
+        if len(data) % 2:
+            data += b'\x00'
+    ds.PixelData = data
+    ds['PixelData'].VR = 'OB' if (ba <= 8 or enc) else 'OW'
+    if drop_stored:
+        del ds.BitsStored
+    return ds
+
+
+GLUE_READERS = ['stored', 'stored-batch', 'frame', 'frames', 'cached-stored', 'cached-stored-batch', 'cached-frame',
+                'lazy-stored', 'lazy-stored-batch', 'lazy-frame', 'lazy-frames', 'file-reader']
+
+
+def _glue_reads(ds, n, num, as_index):
+    """every reader of the image classes on every frame: {reader: [array or ('err', text)] per frame}.  Order matters: the
+    uncached paths run before `pixel_array` is touched, the cached paths after it, on the SAME object."""
+    import io as _io
+    import highdicom as hd
+    from gen.images import to_bytes
+    from pydicom.filebase import DicomBytesIO
+    out = {}
+
+    def each(f):
+        res = []
+        for k in range(n):
+            try:
+                res.append(np.asarray(f(k)))
+            except Exception as e:  # noqa: BLE001
+                res.append(('err', f'{type(e).__name__}: {str(e)[:160]}'))
+        return res
+
+    def batch(f):
+        try:
+            got = np.asarray(f())
+            return [got[k] for k in range(n)] if got.shape[0] == n else [('err', f'batch of {got.shape[0]} frames')] * n
+        except Exception as e:  # noqa: BLE001
+            return [('err', f'{type(e).__name__}: {str(e)[:160]}')] * n
+
+    def fn(k):        # the frame number / index in the drawn spelling
+        v = k if as_index else k + 1
+        return _num(v, num)
+    dt = np.int64
+    try:
+        im = hd.Image.from_dataset(ds)
+    except Exception as e:  # noqa: BLE001
+        return {'construct': [('err', f'{type(e).__name__}: {str(e)[:160]}')] * n}
+    out['stored'] = each(lambda k: im.get_stored_frame(fn(k), as_index=as_index))
+    out['stored-batch'] = batch(lambda: im.get_stored_frames([fn(k) for k in range(n)], as_indices=as_index))
+    has_stored = 'BitsStored' in ds      # absent: only get_stored_frame(s) fall back to Bits Allocated (the transform needs the attribute)
+    if has_stored:
+        out['frame'] = each(lambda k: im.get_frame(fn(k), as_index=as_index, dtype=dt, **_NO_TRANSFORMS))
+        out['frames'] = batch(lambda: im.get_frames([fn(k) for k in range(n)], as_indices=as_index, dtype=dt, **_NO_TRANSFORMS))
+    if has_stored:
+        try:
+            im.pixel_array          # populates the cache: the same calls now take the other branch
+            out['cached-stored'] = each(lambda k: im.get_stored_frame(fn(k), as_index=as_index))
+            out['cached-stored-batch'] = batch(lambda: im.get_stored_frames(None))
+            out['cached-frame'] = each(lambda k: im.get_frame(fn(k), as_index=as_index, dtype=dt, **_NO_TRANSFORMS))
+        except Exception as e:  # noqa: BLE001
+            out['cached-stored'] = [('err', f'{type(e).__name__}: {str(e)[:160]}')] * n
+    try:
+        raw = to_bytes(ds)
+        lz = hd.imread(_io.BytesIO(raw), lazy_frame_retrieval=True)
+        out['lazy-stored'] = each(lambda k: lz.get_stored_frame(fn(k), as_index=as_index))
+        out['lazy-stored-batch'] = batch(lambda: lz.get_stored_frames([fn(k) for k in range(n)], as_indices=as_index))
+        if has_stored:
+            out['lazy-frame'] = each(lambda k: lz.get_frame(fn(k), as_index=as_index, dtype=dt, **_NO_TRANSFORMS))
+            out['lazy-frames'] = batch(lambda: lz.get_frames(None, dtype=dt, **_NO_TRANSFORMS))
+        if has_stored:
+            with hd.io.ImageFileReader(DicomBytesIO(raw)) as rd:
+                out['file-reader'] = each(lambda k: rd.read_frame(_num(k, num), correct_color=False))
+    except Exception as e:  # noqa: BLE001
+        out['lazy-stored'] = [('err', f'file round trip: {type(e).__name__}: {str(e)[:160]}')] * n
+    raws = []
+    for k in range(n):
+        try:
+            raws.append(bytes(hd.Image.from_dataset(ds).get_raw_frame(k + 1)))
+        except Exception:  # noqa: BLE001
+            raws.append(None)
+    return out, raws
+
+
+def _glue(ctx, reqs, pending, only=None):
+    """frames encoded by `encode_frame`, stored in a multi-frame image with the attributes of that call, read back through
+    every reader that calls `decode_frame` (T13g lists the call sites): each must return the frame that was encoded.
+    Dimensions: syntax, bits allocated / stored, signedness, colour, 1-bit frames that do / do not fill whole bytes, number of
+    frames, Bits Stored present / absent, spelling of the frame number (1-based / as_index, int / numpy integer), reader."""
+    from highdicom.frame import decode_frame
+    n_img = ctx.n(64, 900)
+    for i in (range(n_img) if only is None else [only]):
+        r = ctx.rng('glue', i)
+        nr = ctx.np_rng('gluepix', i)
+        ts = r.choice([EXPLICIT, IMPLICIT, EXPLICIT, RLE, JLS])
+        kind = r.choice(['cells', 'cells', 'bits', 'bits', 'colour']) if ts in NATIVE else r.choice(['cells', 'cells', 'colour'])
+        nfr = r.choice([1, 2, 3, 3, 4])
+        rows, cols = r.randint(1, 7), r.randint(1, 9)
+        if rows == cols:
+            cols += 1
+        if ts == JLS:
+            rows, cols = rows + 8, cols + 9
+        pc = None
+        if kind == 'bits':
+            dt, ba, bs, pr, pi = 'bool', 1, 1, 0, 'MONOCHROME2'
+            if r.random() < 0.3:
+                cols = 8
+            frames = [nr.random((rows, cols)) < 0.5 for _ in range(nfr)]
+        elif kind == 'colour':
+            dt, ba, bs, pr, pi, pc = 'uint8', 8, 8, 0, 'RGB', 0
+            frames = [nr.integers(0, 255, size=(rows, cols, 3), endpoint=True).astype(dt) for _ in range(nfr)]
+        else:
+            opts = [('uint8', 8, 8, 0), ('uint8', 8, 5, 0), ('uint16', 16, 16, 0), ('uint16', 16, 12, 0), ('uint16', 16, 9, 0)]
+            if ts != JLS:
+                opts += [('int16', 16, 16, 1), ('int16', 16, 12, 1), ('int8', 8, 8, 1), ('int8', 8, 6, 1), ('int16', 16, 10, 1)]
+            if ts in NATIVE:
+                opts += [('uint32', 32, 32, 0), ('int32', 32, 20, 1)]
+            dt, ba, bs, pr = r.choice(opts)
+            pi = r.choice(['MONOCHROME2', 'MONOCHROME1'])
+            frames = [_mk_array(nr, dt, (rows, cols), ba, bs, pr) for _ in range(nfr)]
+        drop_stored = kind != 'bits' and r.random() < 0.25
+        num = r.choice(['int', 'int', 'int64', 'uint8', 'int16'])
+        as_index = r.random() < 0.4
+        case = {'kind': 'glue', 'ts': ts, 'dtype': dt, 'ba': ba, 'bs': bs, 'pi': pi, 'pr': pr, 'pc': pc, 'samples': 3 if kind == 'colour' else None,
+                'shape': [nfr, rows, cols] + ([3] if kind == 'colour' else []), 'drop_stored': drop_stored, 'num': num,
+                'as_index': as_index, 'glue_index': i,
+                'data': np.stack(frames).astype(np.int64).reshape(-1).tolist()}
+        try:
+            ds = _glue_dataset(frames, ts, ba, bs, pi, pr, pc, drop_stored)
+        except Exception as e:  # noqa: BLE001
+            ctx.fail(case, f'a valid frame could not be encoded: {type(e).__name__}: {str(e)[:120]}', site='glue-encode')
+            continue
+        res = _glue_reads(ds, nfr, num, as_index)
+        if isinstance(res, dict):
+            ctx.fail(case, f'Image.from_dataset: {res["construct"][0][1]}', site='glue-construct')
+            continue
+        out, raws = res
+        aligned = (rows * cols) % 8 == 0
+        ctx.case(sample=case if i % 17 == 0 else None,
+                 nontrivial_key=('glue', ts, dt, ba, bs, kind, nfr, aligned if kind == 'bits' else None, drop_stored),
+                 kind='glue', syntax=TSNAME[ts], glue_kind=kind, bits=f'{ba}/{bs}', glue_frames=nfr,
+                 glue_stored_attr='absent' if drop_stored else 'present',
+                 glue_frame_number=('index' if as_index else 'number') + '/' + num,
+                 **({'glue_bits_fill_bytes': aligned} if kind == 'bits' else {}))
+        for reader, got in out.items():
+            for k in range(nfr):
+                g = got[k]
+                ctx.hist('glue_reader', reader)
+                if isinstance(g, tuple):
+                    ctx.fail(case, {'reader': reader, 'frame': k, 'error': g[1]}, site='glue-' + reader)
+                elif not _same(g, frames[k]):
+                    ctx.fail(case, {'reader': reader, 'frame': k, 'what': 'the frame read back differs from the frame that was encoded',
+                                    'got': np.asarray(g).astype(np.int64).reshape(-1)[:16].tolist(),
+                                    'want': np.asarray(frames[k]).astype(np.int64).reshape(-1)[:16].tolist()}, site='glue-' + reader)
+        # ---- model (L0, native): `readFrame` = decode_frame with the data set's attributes on the frame's raw bytes and index
+        if ts in NATIVE and kind != 'colour' and all(x is not None for x in raws) and dt != 'int32' and rows * cols <= 400:
+            for k in range(nfr):
+                st = out.get('stored', [None] * nfr)[k]
+                if isinstance(st, tuple) or st is None:
+                    continue
+                reqs.append(('readFrame', {'ts': ts, 'rows': rows, 'cols': cols, 'samples': 1, 'ba': ba,
+                                           'bs': None if drop_stored else bs, 'pi': pi, 'pr': pr, 'planar': pc,
+                                           'bytes': list(raws[k]), 'index': k}))
+                pending.append((case, 'values', np.asarray(st).astype(np.int64).reshape(-1).tolist()))
+        # ---- decode_frame called directly with index = k on the bytes that cover frame k of the packed bit stream
+        if kind == 'bits':
+            npx = rows * cols
+            data = bytes(ds.PixelData)
+            for k in range(nfr):
+                lo, hi = (k * npx) // 8, ((k + 1) * npx + 7) // 8
+                st2, dec = _decode(data[lo:hi], ts, rows, cols, 1, 1, 1, pi, 0, None, 'rrr', num)
+                if st2 == 'ok':
+                    try:
+                        from highdicom.frame import decode_frame as _df
+                        dec = _df(data[lo:hi], ts, rows, cols, 1, 1, 1, pi, 0, None, _num(k, num))
+                    except Exception as e:  # noqa: BLE001
+                        st2, dec = 'err', f'{type(e).__name__}: {str(e)[:160]}'
+                if st2 != 'ok' or not _same(dec, frames[k]):
+                    ctx.fail(case, {'frame': k, 'what': 'decode_frame(index=k) on the bytes covering frame k of the bit stream',
+                                    'got': dec if st2 != 'ok' else np.asarray(dec).astype(np.int64).reshape(-1)[:16].tolist(),
+                                    'want': np.asarray(frames[k]).astype(np.int64).reshape(-1)[:16].tolist()}, site='glue-index')
+                elif npx <= 400:
+                    reqs.append(('decodeFrame', {'ts': ts, 'ba': 1, 'bs': 1, 'pi': pi, 'pr': 0, 'planar': None, 'rows': rows,
+                                                 'cols': cols, 'samples': 1, 'bytes': list(data[lo:hi]), 'index': k}))
+                    pending.append((case, 'values', np.asarray(dec).astype(np.int64).reshape(-1).tolist()))
+
+
 def _uids(ctx, reqs, pending):
     from pydicom.uid import UID
     for ts in TS_ALL:
@@ -726,6 +946,7 @@ def run(ctx):
     _rank_and_shape_cells(ctx, reqs, pending)
     _decode_routes(ctx, reqs, pending)
     _frames(ctx, reqs, pending)
+    _glue(ctx, reqs, pending)
     _compare_all(ctx, reqs, pending)
 
 
@@ -773,7 +994,10 @@ def replay(ctx, case):
     # implementation side only: a replay does not regenerate / rebuild the model, which may stem from another tree
     sub.model_available = False
     reqs, pending = [], []
-    if case.get('kind') == 'rank-shape':
+    if case.get('kind') == 'glue':
+        _glue(sub, reqs, pending, only=case.get('glue_index'))
+        keep = lambda c: c.get('kind') == 'glue' and c.get('glue_index') == case.get('glue_index')   # noqa: E731
+    elif case.get('kind') == 'rank-shape':
         _rank_and_shape_cells(sub, reqs, pending)
         keep = lambda c: c.get('kind') == 'rank-shape' and c.get('seed_index') == case.get('seed_index')   # noqa: E731
     elif 'data' in case:
